@@ -88,6 +88,17 @@ PROPS = {
         "explanation": "C20 theorems: the scan is true iff an aligned slot at/above the SP offset holds an address in the half-open system range; the inclusion "
                        "rule; no principal mapping ⇒ all stacks skipped; counterexample theorem for the repaired inclusive comparison.",
     },
+    "C15": {
+        "rule": "real thread_names_stream::write on a synthetic dumper: every subset of unnamed threads for n ≤ 6 (quick) / 8 (thorough), "
+                "random lists of 1 … 32 threads with 0-75 % unnamed, names of length 0 … 15 incl. non-ASCII, astral, leading/trailing whitespace, "
+                "random bytes already in the image. Non-trivial = mixed list (some named, some unnamed); distinct = distinct name-length patterns.",
+        "expected_tags": ["mixed", "all.named", "none.named", "name.empty", "name.astral"],
+        "trusted_base": ["str::encode_utf16 (units are taken from the real encoder; C16 covers the encoder model)"],
+        "assumptions": ["thread ids below 2^31 (pid_t), image below 4 GiB"],
+        "explanation": "C15 theorems over the Lean model of thread_names_stream::write: exact byte layout for every thread list (count ‖ one record per named "
+                       "thread in order ‖ strings in order), record k points at the k-th name's string; counterexample theorem for the repaired indexing. "
+                       "The driver compares model and implementation byte for byte and decodes the implementation's stream against the named threads.",
+    },
 }
 
 NOT_APPLICABLE = {}
